@@ -118,6 +118,19 @@ class Counters:
     def note(self, cls, b):
         self.sites.setdefault(cls, set()).add(b)
 
+    SETTLE = ("user", "indirect", "handle_drop", "return", "resume", "free", "abort", "panic")
+
+    def on_event(self, eng, ev, st):
+        if ev.kind not in self.SETTLE:
+            return None
+        pend = [f for f in st.flags if f[0] == "wdec_pending"]
+        if not pend:
+            return None
+        for f in pend:
+            if not (st.strong(f[1]) <= DEAD or ("killed", f[1]) in st.flags):
+                eng.violate("EFF-2", "stray-weak-decrement", "the weak count of %s is lowered outside a death path, Weak::drop or a sole-owner extraction" % show(f[1]), f[2], st)
+        return rem(st, lambda f: f[0] == "wdec_pending")
+
     def on_set(self, eng, ev, st):
         b, f, cls = ev.box, ev.field, ev.cls
         self.note("%s:%s" % (f, cls), ev.b)
@@ -169,6 +182,9 @@ class Counters:
             own = self.entry_kind == "weak_drop" and b == self.self_box
             killed = ("killed", b) in st.flags
             if not (dead or own or killed):
+                if st.strong(b) == frozenset("O") and self.entry_kind not in ("rc_drop", "weak_drop") and not is_elem_box(b):
+                    # sole owner: the strong decrement of the extraction may follow; settled where control can leave
+                    return add(st, ("wdec_pending", b, ev.b))
                 eng.violate("EFF-2", "stray-weak-decrement", "the weak count of %s is lowered outside a death path, Weak::drop or a sole-owner extraction" % show(b), ev.b, st)
             return None
         if cls in ("zero", "max", "sub"):
@@ -328,5 +344,18 @@ class Kill:
             self.kill_sites.add(ev.b)
             eng.obl("KILL-1", "kill-site", ev.b)
             if st.empty(b) is not True and ("purged", b) not in st.flags:
-                eng.violate("KILL-1", "%s:kills-without-unlink" % short(self.entry_name), "%s takes the last strong reference of %s outside Rc::drop without checking that no adoption links exist or purging them (peers keep records naming the given-up allocation; a non-empty table is leaked)" % (short(self.entry_name), show(b)), ev.b, st)
+                # the purge may follow the decrement as long as nothing can observe the state in between: the
+                # obligation is settled where control can leave the library (user code, return, unwinding) or the
+                # allocation is freed
+                return add(st, ("kill_pending", b, ev.b))
+        return None
+
+    SETTLE = ("user", "indirect", "handle_drop", "return", "resume", "free", "abort", "panic")
+
+    def on_event(self, eng, ev, st):
+        if ev.kind not in self.SETTLE:
+            return None
+        for f in st.flags:
+            if f[0] == "kill_pending" and ("purged", f[1]) not in st.flags and st.empty(f[1]) is not True:
+                eng.violate("KILL-1", "%s:kills-without-unlink" % short(self.entry_name), "%s takes the last strong reference of %s outside Rc::drop without checking that no adoption links exist or purging them before control leaves the library (peers keep records naming the given-up allocation; a non-empty table is leaked)" % (short(self.entry_name), show(f[1])), f[2], st)
         return None
